@@ -7,12 +7,12 @@ U = ["rcgen::CertificateParams::write_key_usage", "rcgen::KeyUsagePurpose::to_u1
 
 def ku_queries(prefix, check, tier, seed=0):
     import random
-    masks = [0x8000 >> i for i in range(9)] + [0xff80, 0x0080 | 0x8000, 0x0600, 0xfe00]
+    masks = [0x8000, 0x0100, 0x0080, 0xff80, 0x0080 | 0x8000, 0x0600]
     if tier == "thorough":
         masks = [m << 7 for m in range(1, 512)]
     else:
         rnd = random.Random(seed)
-        masks += [rnd.randrange(1, 512) << 7 for _ in range(3)]
+        masks += [rnd.randrange(1, 512) << 7 for _ in range(2)]
     masks = sorted(set(masks))
     qs = [Query(name=f"{prefix}_ku_bits_{m:04x}", body=f"    units::ku_bits({m:#06x}, {check});", unwind=24, family="ku_bits", stubs=S1, functions=U,
                 field_sens=64, timeout=600,
